@@ -15,9 +15,10 @@ from core import log
 PROP = "G06"
 
 def render(doc):
-    out = []; sec = 0; sub = 0; subsub = 0
+    out = []; sec = 0; sub = 0; subsub = 0; text = ""
     for b in doc:
         k, i = b["k"], b["id"]
+        if out: text += out[-1] + ("\n" if b.get("tight") else "\n\n")
         if k == "T": out.append(f"Document B{i}\n" + "=" * 12)
         elif k == "H2":
             sec += 1; sub = 0; subsub = 0
@@ -32,7 +33,9 @@ def render(doc):
         elif k == "C": out.append(f"v{i} := {i}")
         elif k == "L": out.append(f"- item B{i}\n- another B{i}")
         elif k == "Q": out.append(f"> quoted B{i}")
-    return "\n\n".join(out) + "\n"
+        elif k == "I": out.append(f"(i)> info B{i}")
+        elif k == "F": out.append(f"```mech\nv{i} := {i}\n```")
+    return text + (out[-1] if out else "") + "\n"
 
 def ids_in(j):
     """block ids mentioned anywhere in a (sub)tree, in document order"""
@@ -55,7 +58,7 @@ def dedup(seq):
         if not out or out[-1] != x: out.append(x)
     return out
 
-KIND_OF = {"Paragraph": "P", "MechCode": "C", "List": "L", "QuoteBlock": "Q"}
+KIND_OF = {"Paragraph": "P", "MechCode": "C", "List": "L", "QuoteBlock": "Q", "InfoBlock": "I", "FencedMechCode": "F"}
 
 def project(tree):
     """erased serde tree -> (has title, title ids, [(subtitle id or 0, [(kind, ids)])])"""
@@ -94,7 +97,7 @@ def run(rep, tier, seed):
     outs = execpool.run_requests(reqs, nworkers=16, timeout=300)
     tally = collections.Counter()
     for cs, req, (resp, oc) in zip(cases, reqs, outs):
-        pat = ",".join(b["k"] for b in cs["doc"])
+        pat = "".join(("~" if b.get("tight") else ("," if n else "")) + b["k"] for n, b in enumerate(cs["doc"]))
         replay = {"text": req["text"], "doc": pat}
         if oc != "ok" or not resp or "outcome" not in resp:
             rep.fail(f"G06/host-{oc}", f"{pat}: parser process {oc}", replay); continue
